@@ -243,16 +243,16 @@ package network
 //@     invariant forall t :: 0 <= t && t < s.totalNeuronCount ==> s.neuronSignals[t] == old(s.neuronSignals[t])
 //@     invariant forall t :: s.sensorNeuronCount <= t && t < s.totalNeuronCount ==> s.neuronSignalsBeingProcessed[t] == actU(s.activationFunctions[t], preAct(s, t))
 //@   loop 4:
-//@     invariant len(s.modules) != 0
+//@     invariant false
 //@   loop 5:
-//@     invariant len(s.modules) != 0
+//@     invariant false
 //@   loop 6:
 //@     invariant s.sensorNeuronCount <= i && i <= s.totalNeuronCount && fixedParts(s)
 //@     invariant forall t :: s.sensorNeuronCount <= t && t < i ==> s.neuronSignals[t] == actU(s.activationFunctions[t], preAct(s, t))
 //@     invariant forall t :: s.sensorNeuronCount <= t && t < i ==> s.neuronSignalsBeingProcessed[t] == 0.0
 //@     invariant forall t :: i <= t && t < s.totalNeuronCount ==> s.neuronSignalsBeingProcessed[t] == actU(s.activationFunctions[t], preAct(s, t))
 //@   loop 7:
-//@     invariant maxAllowedSignalDelta > 0.0
+//@     invariant false
 
 // Recursive activation: shape of the adjacency structures built by the constructor.
 //@ pred adjWF(s *FastModularNetworkSolver) = len(s.reverseAdjacentList) == s.totalNeuronCount && len(s.adjacentMatrix) == s.totalNeuronCount && len(s.activationFunctions) == s.totalNeuronCount && len(s.biasList) == s.totalNeuronCount && (forall n :: 0 <= n && n < s.totalNeuronCount ==> len(s.adjacentMatrix[n]) == s.totalNeuronCount && base(s.adjacentMatrix[n]) != base(s.neuronSignals) && base(s.adjacentMatrix[n]) != base(s.neuronSignalsBeingProcessed)) && (forall m :: 0 <= m && m < s.totalNeuronCount ==> (forall k :: 0 <= k && k < len(s.reverseAdjacentList[m]) ==> 0 <= s.reverseAdjacentList[m][k] && s.reverseAdjacentList[m][k] < s.totalNeuronCount)) && (s.totalNeuronCount > 0 ==> base(s.biasList) != base(s.neuronSignals) && base(s.biasList) != base(s.neuronSignalsBeingProcessed))
